@@ -39,3 +39,23 @@ package allocators
 //@   ensures[C20:inverse] trunc(128, nthblock(base, n, uint64(p))) >= base
 //@   ensures[C20:inverse] blockdist(trunc(128, nthblock(base, n, uint64(p))), base, p) == zext(128, n)
 //@   split p 0..128
+
+// ---------------------------------------------------------------------------
+// Interface contract of Allocator, as relied on by the lease plugins. The abstract view is
+// the ghost set aset (outstanding block bases); awf is the implementation's invariant.
+// Both implementations in package bitmap are verified against their own (stronger) contracts;
+// that those imply this one is argued in DESIGN.md, not machine-checked.
+//@ ghost field awf(Allocator) bool
+//@ ghost var alloc_ok int
+
+//@ func (Allocator).Allocate
+//@   requires self != nil && awf(self)
+//@   modifies awf(self), alloc_ok
+//@   ensures awf(self)
+//@   ensures ret1 == nil ==> (alloc_ok == old(alloc_ok) + 1 && (len(ret0.IP) == 16 || len(ret0.IP) == 4) && ret0.IP != nil)
+//@   ensures ret1 != nil ==> alloc_ok == old(alloc_ok)
+
+//@ func (Allocator).Free
+//@   requires self != nil && awf(self)
+//@   modifies awf(self)
+//@   ensures awf(self)
